@@ -113,7 +113,7 @@ void check_all(const std::string& P, const std::string& site, const std::string&
 			if (g != h.model.v[n]) { violation(P + ".value", site, "a live MTBDD returns " + std::to_string(g) + " for assignment " + std::to_string(n) + " but denotes " + std::to_string(h.model.v[n]) + " (after " + after + ")"); return; }
 		}
 	}
-	if (P == "C17" || P == "C18") {
+	if (P == "C17") {      // "compare equal exactly when they denote the same function" is C17's sentence
 		for (size_t i = 0; i < all.size(); ++i) for (size_t j = i + 1; j < all.size(); ++j) {
 			if (all[i]->type != all[j]->type) continue; count(c_mtbdd_canon_checks);
 			bool eq = all[i]->type == 0 ? (*all[i]->a == *all[j]->a) : (*all[i]->b == *all[j]->b);
@@ -121,19 +121,26 @@ void check_all(const std::string& P, const std::string& site, const std::string&
 			if (eq != want) { violation(P + ".canonicity", site, std::string("two live MTBDDs compare ") + (eq ? "equal" : "different") + " although they denote " + (want ? "the same function" : "different functions") + " (after " + after + ")"); return; }
 		}
 	}
-	// the store holds at least the canonical nodes of the live functions
-	for (int t = 0; t < 2; ++t) {
+	// C18: "no node is released while a live MTBDD or node refers to it": the unique tables hold at least the canonical nodes of the
+	// live functions.  (Nothing is demanded about how soon unreferenced nodes go away -- only that the store is back at its baseline
+	// once everything has been destroyed, see final_check.  The bound is on the whole table: nodes that were there before the first
+	// construction may be shared with live diagrams.)
+	if (P == "C18") for (int t = 0; t < 2; ++t) {
 		std::vector<Fn> live; for (MH* h : all) if (h->type == t) live.push_back(h->model);
 		size_t cl = 0, ci = 0; mdl::robdd_nodes(live, U, &cl, &ci);
-		size_t gl = leaves(t) - g_base_leaves[t], gi = internals(t) - g_base_internals[t];
+		size_t gl = leaves(t), gi = internals(t);
 		if (gl < cl || gi < ci) violation("C18.store-holds-live-nodes", site, "unique tables hold " + std::to_string(gl) + " leaves / " + std::to_string(gi) + " internal nodes, fewer than the " + std::to_string(cl) + " / " + std::to_string(ci) + " the live diagrams need (after " + after + ")");
-		if (g_only_listed_ops && armed("C18") && (gl != cl || gi != ci))
-			violation("C18.store-exact", site, "unique tables hold " + std::to_string(gl) + " leaves / " + std::to_string(gi) + " internal nodes but the live diagrams consist of exactly " + std::to_string(cl) + " / " + std::to_string(ci) + " (after " + after + ")");
 	}
 }
 void after_step(const Step& s, const std::string& what) { api_end(); if (armed("C17")) check_all("C17", s.op, what); else if (armed("C18")) check_all("C18", s.op, what); else if (armed("C20")) {} }
 
-template <class T> MH& add(Client& c, OndriksMTBDD<T>&& m, const Fn& f, long dflt) { MH h; h.type = std::is_same<T, int>::value ? 0 : 1; slot<T>(h).reset(new OndriksMTBDD<T>(std::move(m))); h.model = f; h.dflt = dflt; c.h.push_back(std::move(h)); count(c_handles_created); return c.h.back(); }
+template <class T> MH& add(Client& c, OndriksMTBDD<T>&& m, const Fn& f, long dflt) {
+	MH h; h.type = std::is_same<T, int>::value ? 0 : 1; slot<T>(h).reset(new OndriksMTBDD<T>(std::move(m))); h.model = f; h.dflt = dflt;
+	// whether a fresh result denotes the right function is C17's question; C18 asks that a live diagram never CHANGES the function it
+	// denotes: in C18 runs the function of a diagram is what it returns when it is created
+	if (armed("C18") && !armed("C17")) { api_end(); for (size_t n = 0; n < NT; ++n) h.model.v[n] = value_at(h, n); }
+	c.h.push_back(std::move(h)); count(c_handles_created); return c.h.back();
+}
 
 template <class FN> void with_type(int type, FN fn) { if (type == 0) fn(int()); else fn(OV()); }
 
@@ -288,7 +295,7 @@ void final_check() {
 	if (armed("C17")) check_all("C17", "<final>", "the end of the run"); else if (armed("C18")) check_all("C18", "<final>", "the end of the run");
 	// destroy everything in a drawn-by-position order, then the store must be back at its baseline
 	for (auto& c : g_cl) while (!c.h.empty()) { c.h.erase(c.h.begin() + long(c.h.size() / 2)); }
-	if (g_only_listed_ops && (armed("C18") || armed("C17"))) {
+	if (g_only_listed_ops && armed("C18")) {
 		count(c_mtbdd_baseline_checks);
 		for (int t = 0; t < 2; ++t)
 			if (leaves(t) != g_base_leaves[t] || internals(t) != g_base_internals[t])
